@@ -127,6 +127,11 @@ Inductive api : Type :=
 | ASamples (o d : nat)            (* Fragment.GetFullSamples of every fragment -> sample list d (views) *)
 | AEncrypt (o : nat)              (* InitProtect + EncryptFragment on every fragment of o, in place *)
 | ADecrypt (o : nat)              (* DecryptInit + DecryptSegment on every segment of o, in place *)
+| ADecryptInit (o d : nat)        (* mp4.DecryptInit(init of o) -> DecryptInfo d; d points into o (sinf/tenc/trex) *)
+| AInitProtect (o d : nat)        (* mp4.InitProtect(init of o) -> InitProtectData d; ProtFunc closes over o's avcC/hvcC *)
+| ADecryptWith (m : nat) (k : src) (* DecryptSegment on every segment of m with a DecryptInfo: an own object (SObj) or one
+                                     shared read-only between the goroutines (SIn j); in place on m ONLY *)
+| AEncryptWith (m k : nat)        (* EncryptFragment on every fragment of m with protect data k; in place on m ONLY *)
 | AToByteStream (o : nat)         (* avc.ConvertSampleToByteStream on the samples of o, in place *)
 | AToNaluSample (o : nat)         (* avc.ConvertByteStreamToNaluSample (4-byte start codes), in place *)
 | ASetBoxDecoder                  (* mp4.SetBoxDecoder: excluded by the property, modelled to show why *)
@@ -161,8 +166,18 @@ Definition f_touch (vs : list N) : N := nth 0 vs 0 + 1.
 Definition f_crypt (vs : list N) : N := N.lxor (nth 1 vs 0) crypt_key. (* second read = payload *)
 Definition f_conv (vs : list N) : N := N.lxor (nth 0 vs 0) 1.
 
+(* what a decrypt / encrypt operation reads of its key material *)
+Definition key_locs (t : thread) (st : astate) (k : src) : list loc :=
+  match k with SIn j => [Input j] | SObj o => [sloc t o; pl t st o] end.
+
 Definition api_fp (t : thread) (st : astate) (a : api) : list loc * list assign :=
   match a with
+  | ADecryptInit o d | AInitProtect o d =>
+      ([sloc t o; pl t st o; gTables], [(sloc t o, f_touch); (sloc t d, f_struct)])
+  | ADecryptWith m k =>
+      (sloc t m :: pl t st m :: gTables :: key_locs t st k, [(sloc t m, f_touch); (pl t st m, f_crypt)])
+  | AEncryptWith m k =>
+      (sloc t m :: pl t st m :: gTables :: key_locs t st (SObj k), [(sloc t m, f_touch); (pl t st m, f_crypt)])
   | ADecode s d =>
       ([src_loc t st s; gDecoders; gSge; gTables],
        [(sloc t d, f_struct); (ownp t d, f_payload)])
@@ -190,7 +205,7 @@ Definition api_next (t : thread) (st : astate) (a : api) : astate :=
   match a with
   | ADecode _ d | AInfo _ d | AEncode _ d | AEncodeSW _ d => (d, ownp t d) :: st
   | ADecodeSR s d => (d, src_loc t st s) :: st
-  | ASamples o d => (d, pl t st o) :: st
+  | ASamples o d | ADecryptInit o d | AInitProtect o d => (d, pl t st o) :: st
   | _ => st
   end.
 
@@ -211,6 +226,7 @@ Definition registry_free (a : api) : bool :=
 Definition inplace_ok (t : thread) (st : astate) (a : api) : bool :=
   match a with
   | AEncrypt o | ADecrypt o | AToByteStream o | AToNaluSample o => own t (pl t st o)
+  | ADecryptWith m _ | AEncryptWith m _ => own t (pl t st m)
   | _ => true
   end.
 
@@ -236,6 +252,8 @@ Definition input_ids (ls : list loc) : list nat :=
 Definition api_target (a : api) : nat :=
   match a with
   | ADecode _ d | ADecodeSR _ d | AInfo _ d | AEncode _ d | AEncodeSW _ d | ASamples _ d => d
+  | ADecryptInit _ d | AInitProtect _ d => d
+  | ADecryptWith m _ | AEncryptWith m _ => m
   | AEncrypt o | ADecrypt o | AToByteStream o | AToNaluSample o => o
   | _ => 0%nat
   end.
